@@ -34,6 +34,11 @@ def handleGcd : Handler
     some (match reduce64 x y with
       | none => "panic"
       | some (a, b, c, d) => s!"{a} {b} {c} {d}")
+  | ["gcd_egcd64", x, y] => do
+    let x ← parseI64 x; let y ← parseI64 y
+    some (match egcdI64 x y with
+      | none => "panic"
+      | some (g, ex, ey) => s!"{g} {ex} {ey}")
   | ["gcd_top64", digs, bts] => do
     let d ← parseNatList digs; let b ← parseNat bts
     if d.any (· ≥ W) ∨ b ≥ 2 ^ 32 then none
